@@ -5,10 +5,12 @@ import random
 
 from harness import core, sched, tsconc
 from harness.core import Check, Finding
-from harness.c08 import mk, diff_key, run_shards, _detuple, KINDS
+from harness.c08 import mk, diff_key, run_shards, _detuple, KINDS, CFGS
 
-COPY_OPS = ('copy', 'cpath', 'cset')
-HANDLER_KINDS = ['cookies', 'headers', 'status', 'raised', 'errpage', 'crash', 'body', 'empty', 'head', 's204']
+COPY_OPS = ('copy', 'cpath', 'cset', 'cheader')
+HANDLER_KINDS = ['cookies', 'headers', 'status', 'raised', 'errpage', 'crash', 'body', 'empty', 'head', 's204',
+                 'toolarge', 'badjson', 'errjson', 'crashjson', 'copyhdr']
+ERROR_KINDS = ['toolarge', 'badjson', 'toolarge', 'badjson', 'errjson', 'crashjson', 'crash', 'errpage']
 READBACK = [('path',), ('rdstatus',), ('query', 'q'), ('rdhdr', 'X-Own'), ('cookie', 'c'), ('method',)]
 
 
@@ -43,7 +45,8 @@ def gen_single(rng, idx):
     def rq(app, kind=None, p=None):
         n = nr()
         return req_for(app, n, kind or rng.choice(KINDS), n if p is None else p)
-    kind = ['alternating', 'nested', 'nested2', 'copy', 'construct', 'mixed'][idx % 6]
+    kind = ['alternating', 'nested', 'nested2', 'copy', 'construct', 'mixed', 'mapped', 'mapped-nested',
+            'copyhdr'][idx % 9]
     a, b = apps[0], apps[1]
     c = apps[2] if len(apps) > 2 else None
     items = []
@@ -75,16 +78,48 @@ def gen_single(rng, idx):
                          [('construct', new)] + READBACK)
         items = [('serve', outer), ('serve', rq(new)), ('serve', rq(a))]
         init = list(apps)
+    elif kind == 'mapped':
+        # several applications fail onto the same shared error object, alternating
+        seq = [rng.choice(apps) for _ in range(rng.randint(3, 6))]
+        items = [('serve', rq(x, rng.choice(ERROR_KINDS))) for x in seq]
+        init = list(apps)
+    elif kind == 'mapped-nested':
+        # the handler of A calls B, B fails onto a shared error, then A fails onto the same one
+        ek = rng.choice(['toolarge', 'badjson'])
+        inner = rq(b, ek)
+        if c is not None and rng.random() < .5:
+            inner = with_ops(rq(b, ek), own_marks(7), [('nested', rq(c, rng.choice(ERROR_KINDS)))])
+        outer = with_ops(rq(a, rng.choice([ek, ek, 'errjson', 'crash'])), own_marks(3), [('nested', inner), ('rdstatus',), ('rdhdr', 'X-Own')])
+        items = [('serve', outer), ('serve', rq(b, ek)), ('serve', rq(a, ek))]
+        init = list(apps)
+    elif kind == 'copyhdr':
+        # header views, copies and edits of copies down a nested chain: the originals must not move
+        inner = with_ops(rq(b, 'copyhdr'), [], [('header', 'X-K'), ('cookie', 'c'), ('path',)])
+        if c is not None:
+            inner = with_ops(inner, [], [('nested', rq(c, 'copyhdr')), ('header', 'X-K'), ('query', 'q')])
+        outer = with_ops(rq(a, 'copyhdr'), own_marks(3), [('nested', inner), ('header', 'X-K'), ('cookie', 'c'),
+                                                         ('query', 'q'), ('envget', 'HTTP_X_K')] + READBACK)
+        items = [('serve', outer)]
+        init = list(apps)
     else:
         new = max(apps) + 1
         inner = with_ops(rq(b, rng.choice(HANDLER_KINDS)), [('construct', new)], [('copy',), ('cset', 0, 'PATH_INFO', '/e2')])
         outer = with_ops(rq(a, 'status'), own_marks(9), [('nested', inner), ('copy',), ('cpath', 0)] + READBACK)
         items = [('serve', outer), ('serve', rq(new)), ('construct', new + 1), ('serve', rq(new + 1)), ('serve', rq(a))]
         init = list(apps)
-    return kind, dict(apps=init, threads={1: items}, switches=[])
+    case = dict(apps=init, threads={1: items}, switches=[])
+    case['cfg'] = pick_cfgs(rng, case)
+    return kind, case
 
 
-THREAD_ARR = ['serve', 'construct', 'copy', 'nested', 'default-nested', 'three']
+def pick_cfgs(rng, case):
+    """an application configuration per application id (incl. those constructed on the way)"""
+    names = sorted(CFGS)
+    return {a: CFGS[rng.choice(names)] for a in sorted(set(tsconc.case_apps(case)))}
+
+
+THREAD_ARR = ['serve', 'construct', 'copy', 'nested', 'default-nested', 'three', 'mapped', 'mapped-default',
+              'copyhdr']
 
 
 def gen_threads(rng, idx):
@@ -108,11 +143,23 @@ def gen_threads(rng, idx):
     elif kind == 'default-nested':
         r0 = with_ops(req_for(0, 1, ka, 1), own_marks(1), [('nested', req_for(2, 3, 'cookies', 3))] + READBACK)
         case = dict(apps=[0, 1, 2], threads={1: [('serve', r0)], 2: [('serve', with_ops(req_for(1, 2, kb, 2), own_marks(2), READBACK))]})
+    elif kind in ('mapped', 'mapped-default'):
+        # two applications on two threads fail onto the same shared error object
+        ek = rng.choice(['toolarge', 'badjson'])
+        a0 = 0 if kind == 'mapped-default' else a
+        r1 = with_ops(req_for(a0, 1, ek, 1), own_marks(1), [])
+        r2 = with_ops(req_for(2, 2, rng.choice([ek, ek, 'crashjson', 'errjson']), 2), own_marks(2), [])
+        case = dict(apps=[a0, 2], threads={1: [('serve', r1)], 2: [('serve', r2)]})
+    elif kind == 'copyhdr':
+        r1 = with_ops(req_for(a, 1, 'copyhdr', 1), own_marks(1), READBACK)
+        r2 = with_ops(req_for(2, 2, 'copyhdr', 2), [], [('nested', req_for(3, 3, 'copyhdr', 3)), ('header', 'X-K')])
+        case = dict(apps=[a, 2, 3], threads={1: [('serve', r1)], 2: [('serve', r2)]})
     else:
         case = dict(apps=[a, 2, 3], threads={1: [('serve', ra)],
                                             2: [('serve', with_ops(req_for(2, 2, kb, 2), own_marks(2), READBACK))],
                                             3: [('serve', with_ops(req_for(3, 3, 'cookies', 3), [('copy',)], READBACK))]})
     case['switches'] = []
+    case['cfg'] = pick_cfgs(rng, case)
     return 'threads-' + kind, case
 
 
@@ -147,41 +194,7 @@ def project(case, a):
             if it[0] == 'serve':
                 mine += flatten(it[1], a)
         threads[t] = mine
-    return dict(apps=[a], threads=threads, switches=[])
-
-
-def obs_of(obs, a, drop_copy_reads_of=None):
-    return [o for o in obs if o[0] == a]
-
-
-def expected_without_copies(case, a):
-    """positions of the observations of app a that come from reads of copies (`cpath`), per thread"""
-    skip = {}
-    for t, items in case['threads'].items():
-        flags = []
-        for it in items:
-            if it[0] == 'serve':
-                _collect_flags(it[1], a, flags)
-        skip[t] = flags
-    return skip
-
-
-def _collect_flags(req, a, flags):
-    """one flag per observation that serving `req` appends for application a, in order: True = a read
-    of a copy"""
-    mine = req['app'] == a
-    if req['kind'] == 'handler':
-        for op in req['ops']:
-            k = op[0]
-            if k == 'nested':
-                _collect_flags(op[1], a, flags)
-            elif mine and k == 'cpath':
-                flags.append(True)
-            elif mine and k in ('path', 'method', 'query', 'cookie', 'header', 'envget', 'body', 'form', 'url',
-                                'rdstatus', 'rdhdr'):
-                flags.append(False)
-    if mine:
-        flags.append(False)       # the response
+    return dict(apps=[a], threads=threads, switches=[], cfg={a: (case.get('cfg') or {}).get(a) or {}})
 
 
 def solo_for(case, a, cache):
@@ -193,9 +206,13 @@ def solo_for(case, a, cache):
         p2 = _copy.deepcopy(p)
         tids = sorted(p2['threads'])
         p2['threads'] = {i + 1: p2['threads'][t] for i, t in enumerate(tids)}
-        w = tsconc.World(p2, multi=True)
-        w.run(core.REPO)
-        cache[key] = {t: [o for o in w.obs.get(i + 1, [])] for i, t in enumerate(tids)}
+
+        def go():
+            w = tsconc.World(p2, multi=True)
+            w.run(core.REPO)
+            return {t: [o for o in w.obs.get(i + 1, [])] for i, t in enumerate(tids)}
+        # in a forked child of this (so far untouched) process: a pristine reference
+        cache[key] = tsconc.pristine(go)
     return cache[key]
 
 
@@ -203,11 +220,9 @@ def check_case(name, case, w, cache):
     apps = sorted(set(tsconc.case_apps(case)))
     for a in apps:
         solo = solo_for(case, a, cache)
-        flags = expected_without_copies(case, a)
         for t in sorted(case['threads']):
-            got_all = [o for o in w.obs.get(t, []) if o[0] == a or o[0] == -1]
-            fl = flags.get(t, [])
-            got = [o for i, o in enumerate(got_all) if not (i < len(fl) and fl[i])]
+            # reads of copies (`c:`) are not compared: the copies must not matter to the original
+            got = [o for o in w.obs.get(t, []) if (o[0] == a or o[0] == -1) and not o[1].startswith('c:')]
             exp = solo.get(t, [])
             k = diff_key(got, exp)
             if k:
@@ -238,13 +253,19 @@ def shard(args):
     finds = []
     stats = dict(schedules=0, points=0, arrangements={})
     try:
+        gen = []
         for idx in range(lo, hi):
             rng = random.Random('%s-%d-%d' % (mode, seed, idx))
+            name, case = (gen_single if mode == 'single' else gen_threads)(rng, idx)
+            gen.append((idx, rng, name, case))
+        # all references first, while this process has not run anything of its own
+        for idx, rng, name, case in gen:
+            for a in sorted(set(tsconc.case_apps(case))):
+                solo_for(case, a, cache)
+        for idx, rng, name, case in gen:
             if mode == 'single':
-                name, case = gen_single(rng, idx)
                 todo = [[]]
             else:
-                name, case = gen_threads(rng, idx)
                 line, ans, bad, w0 = run_one(name, case, cache)
                 n1 = w0.sched.order[0][1]
                 nthreads = len(case['threads'])
@@ -266,6 +287,8 @@ def shard(args):
         return dict(ok=True, cases=[(l, a, s) for (l, a), s in out.items()], finds=finds[:20], stats=stats, base=None)
     except sched.SchedTimeout as e:
         return dict(ok=False, err='scheduler timeout: %s' % e)
+    except tsconc.ChildFailed as e:
+        return dict(ok=False, err='reference run failed: %s' % e)
 
 
 class C10(Check):
@@ -313,10 +336,10 @@ class C10(Check):
     def _jobs(self, rng, n):
         seed = rng.randrange(1 << 30)
         jobs = []
-        nsingle = 240 * n
+        nsingle = 270 * n
         for lo in range(0, nsingle, 20):
             jobs.append(('single', seed, lo, lo + 20))
-        nthr = 18 * n
+        nthr = 27 * n
         for i in range(nthr):
             jobs.append(('threads', seed, i, i + 1))
         return jobs
@@ -357,11 +380,11 @@ class C10(Check):
                 r = random.Random('%s-%d-%d' % (s['mode'], s['seed'], s['idx']))
                 name, case = (gen_single if s['mode'] == 'single' else gen_threads)(r, s['idx'])
                 case['switches'] = [tuple(x) for x in s['switches']]
-                _, _, bad, _ = run_one(name, case, cache)
+                bad = tsconc.pristine(lambda: run_one(name, case, {})[2])
                 evals += 1
                 if bad:
                     out.append(Finding('C10:' + bad[0], bad[1], dict(arrangement=name, case=case)))
-            except sched.SchedTimeout as e:
+            except (sched.SchedTimeout, tsconc.ChildFailed) as e:
                 raise core.Infra(str(e))
         return evals, out
 
@@ -371,13 +394,20 @@ class C10(Check):
         case['threads'] = {int(k): [tuple(it) if it[0] == 'construct' else ('serve', _detuple(it[1])) for it in v]
                            for k, v in case['threads'].items()}
         case['switches'] = [tuple(x) for x in case['switches']]
+        case['cfg'] = {int(k): dict(v, before=[tuple(o) for o in v.get('before', [])],
+                                   after=[tuple(o) for o in v.get('after', [])])
+                       for k, v in (case.get('cfg') or {}).items()}
         cache = {}
-        try:
-            line, ans, bad, w = run_one(inp.get('arrangement', '?'), case, cache)
-        except sched.SchedTimeout as e:
-            raise core.Infra(str(e))
         apps = sorted(set(tsconc.case_apps(case)))
-        return dict(arrangement=inp.get('arrangement'), switches=case['switches'], executed_order=w.sched.order,
-                    observed={t: w.obs.get(t, []) for t in case['threads']},
-                    each_application_alone={a: solo_for(case, a, cache) for a in apps},
+        try:
+            alone = {a: solo_for(case, a, cache) for a in apps}
+
+            def go():
+                line, ans, bad, w = run_one(inp.get('arrangement', '?'), case, cache)
+                return bad, w.sched.order, {t: w.obs.get(t, []) for t in case['threads']}
+            bad, order, observed = tsconc.pristine(go)
+        except (sched.SchedTimeout, tsconc.ChildFailed) as e:
+            raise core.Infra(str(e))
+        return dict(arrangement=inp.get('arrangement'), switches=case['switches'], executed_order=order,
+                    observed=observed, each_application_alone=alone,
                     verdict=('differs: %s' % (bad,) if bad else 'every application sees what it sees alone'))
